@@ -348,6 +348,26 @@ func vtChild(t *testing.T) {
 					ps = append(ps, pkt{0, nil}) // sequence separator: let the reassembly state of id 7 be reused
 				}
 			}
+			// every eighth batch meets a promiscuous interface, and every other IPv4 / IPv6 frame of
+			// it is re-addressed to a host that is not the stack: the hostile frames are handled by
+			// temporary per-packet address objects (their own reassemblers, echo repliers, routes
+			// held by half-open connections). Promiscuous mode ends before the probes.
+			promisc := os.Getenv("VERIF_FRAGS") != "1" && b%8 == 5
+			if promisc {
+				for i := range ps {
+					if i%2 == 0 && ps[i].Proto == 0x0800 && len(ps[i].Data) >= 20 {
+						ps[i].Data = append([]byte(nil), ps[i].Data...)
+						copy(ps[i].Data[16:20], []byte{10, 0, 0, byte(77 + i%3)})
+					} else if i%2 == 0 && ps[i].Proto == 0x86dd && len(ps[i].Data) >= 40 {
+						ps[i].Data = append([]byte(nil), ps[i].Data...)
+						ps[i].Data[39] ^= byte(0x40 + i%3)
+					}
+				}
+				if e := tg.h.S.SetPromiscuousMode(1, true); e != nil {
+					run.Broken("harness: promiscuous mode: " + e.String())
+				}
+				run.Count("batches_received_by_a_promiscuous_interface", 1)
+			}
 			bf := filepath.Join(dir, fmt.Sprintf("%s.batch-%d.bin", tag, b))
 			writeBatch(bf, ps)
 			idxLog.WriteString(fmt.Sprintf("batch %d file %s\n", b, bf))
@@ -374,6 +394,9 @@ func vtChild(t *testing.T) {
 				}
 			}
 			rawpeer.Settle()
+			if promisc {
+				tg.h.S.SetPromiscuousMode(1, false)
+			}
 			run.Count("frames_injected", int64(len(ps)))
 			run.Case(fw.Hash("batch", b), true)
 			if m := tg.probes(b); m != "" {
@@ -686,7 +709,7 @@ func TestC07(t *testing.T) {
 		go worker(os.Getenv("VERIF_BIN_RACE"), "race", fmt.Sprintf("race%d", c), fw.N(8, 200)*c, fw.N(8, 200)*(c+1), true, nil)
 	}
 	wg.Wait()
-	code := run.Finish("child processes host a real stack (listener, established connection, bound UDP socket, IPv4+IPv6+ARP); every batch of frames is written to disk before it is injected and the index of each frame is logged first, so a process death names the frame. Frames: valid ARP / echo / NDP / UDP / SYN with option soup / in- and near-window segments with all flag sets / fragments / ICMP errors quoting the stack's packets / IPv6 fragment headers, put through 1-3 structure-aware mutations (truncate anywhere, length/offset/flag bytes and 16-bit fields set to edge values, bit flips, splices, noise, wrong ethertype) plus pure noise of every length 0..128; exhaustive small scope: all IPv4 fragment pairs (and a subset of triples) over offsets {0,8,16,65528} x lengths {0,1,8,9,16} x MF. One child receives megabytes of self-contradictory fragment sets. After each batch, in virtual time: one matching echo reply, a new TCP handshake accepted with its data readable, a UDP datagram delivered intact, and a UDP datagram delivered from three fragments. Also: the fd-based Ethernet link over a socketpair in real time (runt frames 0..20 bytes; echo probe; the link's close callback), and the barrage from 4 goroutines under the race detector. distinct = batches Later additions: Bare ACKs to the listener with arbitrary acknowledgement numbers (forged SYN cookies); half of each batch arrives 31 virtual seconds after the other half. One child receives hundreds of self-contradictory fragment sets (large, small, tiny); every probe round also needs a 2.4 KB datagram delivered from three fragments.",
+	code := run.Finish("child processes host a real stack (listener, established connection, bound UDP socket, IPv4+IPv6+ARP); every batch of frames is written to disk before it is injected and the index of each frame is logged first, so a process death names the frame. Frames: valid ARP / echo / NDP / UDP / SYN with option soup / in- and near-window segments with all flag sets / fragments / ICMP errors quoting the stack's packets / IPv6 fragment headers, put through 1-3 structure-aware mutations (truncate anywhere, length/offset/flag bytes and 16-bit fields set to edge values, bit flips, splices, noise, wrong ethertype) plus pure noise of every length 0..128; exhaustive small scope: all IPv4 fragment pairs (and a subset of triples) over offsets {0,8,16,65528} x lengths {0,1,8,9,16} x MF. One child receives megabytes of self-contradictory fragment sets. After each batch, in virtual time: one matching echo reply, a new TCP handshake accepted with its data readable, a UDP datagram delivered intact, and a UDP datagram delivered from three fragments. Also: the fd-based Ethernet link over a socketpair in real time (runt frames 0..20 bytes; echo probe; the link's close callback), and the barrage from 4 goroutines under the race detector. distinct = batches Later additions: Every eighth batch meets a promiscuous interface with every other IP frame re-addressed to a foreign host (temporary per-packet address objects). Bare ACKs to the listener with arbitrary acknowledgement numbers (forged SYN cookies); half of each batch arrives 31 virtual seconds after the other half. One child receives hundreds of self-contradictory fragment sets (large, small, tiny); every probe round also needs a 2.4 KB datagram delivered from three fragments.",
 		[]string{"a panic/fatal whose innermost non-runtime frame is under /repo is a violation keyed by that file; a watchdog expiry is inconclusive", "probes use fresh ports and drain queues first, so a legitimately reset or filled connection does not count against the stack"})
 	os.Exit(code)
 }
